@@ -94,11 +94,12 @@ class Output(BaseOutput):
             self.output_period = -self.output_period
         logger.info("  Output period: %s", str(self.output_period))
 
-        self.num_records = int(
-            abs((timer.stop_time - timer.start_time) // self.output_period)
-        )
-        # if not skip_initial:  # Add an initial record
-        #     self.num_records += 1
+        # Number of records the run will write: a cold start writes at
+        # steps 0, P, 2P, ... < Nsteps, a warm start (skip_initial) at P, 2P, ... <= Nsteps
+        if skip_initial:
+            self.num_records = timer.Nsteps // self.output_period_step
+        else:
+            self.num_records = len(range(0, timer.Nsteps, self.output_period_step))
         logger.info("  Number of records: %s", self.num_records)
 
         if self.numrec:
